@@ -233,4 +233,52 @@ theorem gIsNode_build (ops : List GOp) (v : Nat) :
   unfold gBuild
   rw [gIsNode_foldl]; simp [gIsNode_nil]
 
+
+/-! ### direct deletes in the exported map (`gDelNode`) -/
+
+theorem gLookup_delNode (g : GMap) (v a : Nat) :
+    gLookup (gDelNode g v) a
+      = if a = v then none else (gLookup g a).map fun ns => ns.filter fun u => u != v := by
+  induction g with
+  | nil => simp [gDelNode, gLookup]
+  | cons e r ih =>
+    obtain ⟨k, ns⟩ := e
+    unfold gDelNode at ih ⊢
+    by_cases hk : k = v
+    · subst hk
+      by_cases ha : a = k
+      · subst ha
+        simpa [List.filter, gLookup] using ih
+      · have : ¬ k = a := fun h => ha h.symm
+        simpa [List.filter, gLookup, ha, this] using ih
+    · have hk' : (k != v) = true := by simpa using hk
+      by_cases ha : k = a
+      · subst ha
+        simp [List.filter, hk', gLookup, hk]
+      · simpa [List.filter, hk', gLookup, ha] using ih
+
+theorem gNb_delNode (g : GMap) (v a b : Nat) :
+    gNb (gDelNode g v) a b = (gNb g a b && (a != v) && (b != v)) := by
+  unfold gNb
+  rw [gLookup_delNode]
+  by_cases ha : a = v
+  · simp [ha]
+  · cases h : gLookup g a with
+    | none => simp [ha]
+    | some ns =>
+      simp only [ha, if_false, Option.map_some]
+      by_cases hb : b = v
+      · simp [hb]
+      · have ha' : (a != v) = true := by simpa using ha
+        have hb' : (b != v) = true := by simpa using hb
+        simp [hb, ha', hb', List.contains_eq_mem, List.mem_filter]
+
+theorem gIsNode_delNode (g : GMap) (v a : Nat) :
+    gIsNode (gDelNode g v) a = (gIsNode g a && (a != v)) := by
+  unfold gIsNode
+  rw [gLookup_delNode]
+  by_cases ha : a = v
+  · simp [ha]
+  · cases h : gLookup g a <;> simp [ha]
+
 end Golib.C18
